@@ -925,9 +925,9 @@ KNOWN_DOC = {
                "log is pending without autostash (an untracked agent file): hooks mode renames the working log to the new "
                "HEAD, the wrapper does nothing and the pending attribution is stranded",
     "C13-K13": "pull --rebase --autostash with pending attribution: the wrapper re-derives it as INITIAL line claims "
-               "(restore_stashed_va), hooks mode moves the checkpoints verbatim (rename_working_log); when the file is then "
-               "edited without a checkpoint (a person types in it) before it is committed, the two representations "
-               "attribute different lines",
+               "(restore_stashed_va), hooks mode moves the checkpoints verbatim (rename_working_log); when the file then "
+               "changes without a checkpoint before it is committed (a person types in it; git stash / reset / path checkout "
+               "takes the content away) the two representations attribute different lines or leave different prompt records",
     "C13-K11": "reset / stash with work-tree edits that no checkpoint has seen (a person typed above the agent's lines): only the "
                "wrapper runs the pre-command human checkpoint, so only there the pending line numbers are shifted",
 }
@@ -1033,10 +1033,20 @@ def classify(res):
         # ---- K13
         if cmd == "pull" and "--autostash" in a and st.get("dirty_tracked0") and st.get("wl0") and st["rc"] == 0 \
                 and st["head0"] != st["head1"] and st.get("pending1"):
-            nxt = [s2 for s2 in steps[i + 1:n] if s2["args"][:1] == ["commit"] and s2["rc"] == 0][:1]
-            if nxt and set(unck_at.get(nxt[0]["k"], [])) & set(st["pending1"]):
+            window, nxt = [], None
+            for s2 in steps[i + 1:n]:
+                if s2["args"][:1] == ["commit"] and s2["rc"] == 0:
+                    nxt = s2
+                    break
+                window.append(s2)
+            moved = [s2 for s2 in window if s2["args"][:1] in (["stash"], ["reset"], ["pull"], ["rebase"], ["cherry-pick"], ["merge"])
+                     or (s2["args"][:1] == ["checkout"] and "--" in s2["args"])]
+            if nxt is not None and set(unck_at.get(nxt["k"], [])) & set(st["pending1"]):
                 hit("C13-K13", f"step {i}: autostash pull carried pending attribution of {st['pending1'][:2]}; the file is then "
                                f"edited without a checkpoint before the next commit")
+            elif moved:
+                hit("C13-K13", f"step {i}: autostash pull carried pending attribution of {st['pending1'][:2]}; before the next "
+                               f"commit `git {' '.join(moved[0]['args'][:2])}` changes the work tree without a checkpoint")
         # ---- K11
         if ((cmd == "reset" and "--hard" not in a) or (cmd == "stash" and (len(a) == 1 or a[1] in ("push", "drop")))) \
                 and unck_at.get(st["k"]):
@@ -1680,6 +1690,18 @@ def t_pull_autostash_then_human(w):
     _commit(w, "local-after")
 
 
+def t_pull_autostash_then_stash(w):
+    w.setup_remote()
+    w.upstream_commit()
+    _ai(w, "c.txt", ["C1", "C2"], "s2")
+    _commit(w, "l1")
+    _ai(w, "a.txt", A0 + ["AI1", "AI2"], "s2")               # pending, carried across the pull by autostash
+    w.git("pull", "--rebase", "-q", "--autostash", env_extra=E)
+    w.git("stash")                                            # the content goes away without a checkpoint
+    _ai(w, "b.txt", ["b1", "b2", "B3"], "s1")
+    _commit(w, "local-after")
+
+
 def t_pull_rebase(w):
     w.setup_remote()
     w.upstream_commit()
@@ -1744,6 +1766,7 @@ TEMPLATES = {
     "pull_partial_autostash": (_pull_shape("partial", "autostash"), ()),
     "pull_noop_clean": (_pull_shape("noop", "none"), ()),
     "pull_autostash_then_human": (t_pull_autostash_then_human, ("C13-K13",)),
+    "pull_autostash_then_stash": (t_pull_autostash_then_stash, ("C13-K13",)),
     "pull_real_untracked": (_pull_shape("real", "untracked"), ()),
     "pull_noop_untracked": (_pull_shape("noop", "untracked"), ("C13-K12",)),
     "pull_partial_untracked": (_pull_shape("partial", "untracked"), ()),
